@@ -24,6 +24,7 @@
 -/
 import EvalFilter.Model.Api
 import EvalFilter.Proofs.CompJumps
+import EvalFilter.Proofs.ExprCorrect
 
 set_option linter.unusedSimpArgs false
 
@@ -227,5 +228,28 @@ theorem C02_iteration_reset (arg next : Nat) (els : List Value) (rest : List Val
   have : Op.ofNat? Op.iterationReset.toNat = some .iterationReset := rfl
   simp only [step, this, isBinary]
   simp
+
+/-! ### the ternary, end to end -/
+
+open EvalFilter.Exec in
+/-- what the language defines for `c ? t : f`: the condition is evaluated, then exactly one arm, chosen
+    by the truth of the condition's value; an error in the condition or in the chosen arm is the result -/
+theorem C02_ternary_semantics (M : Machine) (obj : HostVal) (env : Env) (c t f : Expr) (out : Str) :
+    evalE M obj env (.ternary c t f) out =
+      (match evalE M obj env c out with
+       | (.error e, o) => (.error e, o)
+       | (.ok cv, o) => if cv.truthy then evalE M obj env t o else evalE M obj env f o) := by
+  simp only [evalE]
+  cases evalE M obj env c out with
+  | mk res o => cases res <;> rfl
+
+open EvalFilter.Exec in
+/-- … and the compiled code does exactly that, for all value-producing `c`, `t`, `f` of any size,
+    wherever the code is placed: the other arm's code is never entered -/
+theorem C02_ternary_correct (c t f : Expr) (base : Nat) (cst : CState) (r : List Instr × CState)
+    (hp : pureE (.ternary c t f) = true) (hc : compileExpr (.ternary c t f) base cst = .ok r)
+    (M : Machine) (obj : HostVal) (code : Bytes) (ctx : Ctx M code) (hat : CodeAt code base r.1)
+    (hpool : ∃ ex, M.consts = r.2.consts ++ ex) : Correct M obj code (.ternary c t f) base :=
+  expr_ok _ base cst r hp hc M obj code ctx hat hpool
 
 end EvalFilter.Props.C02
